@@ -53,7 +53,8 @@ def replay(case):
     doc = build(scn)
     conv = {'entity_id': env.SP, 'remote_addr': '0.0.0.0', 'request_uri': '/acs'} if scn['conv'] else None
     binding = env.BINDING_POST if scn['binding'] == 'post' else env.BINDING_REDIRECT
-    obs = spc.observe(sp, doc, binding, dict(OUTSTANDING), conv_info=conv)
+    outstanding = dict((k, '/came/from/same') for k in OUTSTANDING) if scn.get('sameFrom') else dict(OUTSTANDING)
+    obs = spc.observe(sp, doc, binding, outstanding, conv_info=conv)
     obs['doc'] = doc
     return obs
 
@@ -75,7 +76,7 @@ def main():
         keep = []
         for c in cases:
             s = c['scn']
-            core = (not s['enc'] and s['binding'] == 'post') or s['endpoint'] == 'otherBindingOnly' or s['conf2'] != 'absent'
+            core = (not s['enc'] and s['binding'] == 'post') or s['endpoint'] == 'otherBindingOnly' or s['conf2'] != 'absent' or s['sameFrom']
             decided = c['mustAccept'] or c['mustReject']
             if (core and decided and chk.rng.random() < 0.5) or chk.rng.random() < 0.06:
                 keep.append(c)
@@ -92,7 +93,7 @@ def main():
             chk.violation(scn, 'response accepted although not addressed to this SP / not solicited: %s' % json.dumps(scn, sort_keys=True), detail)
         elif case['mustAccept'] and not accepted:
             chk.violation(scn, 'conformant response rejected (%s %s): %s' % (obs.get('exc'), obs.get('msg', ''), json.dumps(scn, sort_keys=True)), detail)
-        elif accepted and case['cameFrom'] != 'unspecified' and obs.get('came_from') != OUTSTANDING[case['cameFrom']]:
+        elif accepted and case['cameFrom'] != 'unspecified' and obs.get('came_from') != ('/came/from/same' if scn.get('sameFrom') else OUTSTANDING[case['cameFrom']]):
             chk.violation(scn, 'accepted response attributed to request %r instead of %r' % (obs.get('came_from'), OUTSTANDING[case['cameFrom']]), detail)
         elif (obs['verdict'] == 'accept') != (case['model']['verdict'] == 'accept'):
             chk.note('drift: SP says %s, pipeline model says %s for %s' % (obs['verdict'], case['model']['verdict'], json.dumps(scn, sort_keys=True)))
